@@ -1,5 +1,5 @@
 (* Props/C03.v — signatures are trusted only under the issuer's keys from metadata *)
-From PV Require Import Lib.Base Model.Sigver Model.CertSelect Model.IssuerSel Proofs.Sigver_lemmas Proofs.CertSelect_lemmas Proofs.IssuerSel_lemmas.
+From PV Require Import Lib.Base Model.Sigver Model.CertSelect Model.IssuerSel Model.CertValidity Proofs.Sigver_lemmas Proofs.CertSelect_lemmas Proofs.IssuerSel_lemmas Proofs.CertValidity_lemmas.
 Open Scope N_scope.
 
 (* Default setting (only_use_keys_in_metadata on): a successful check means the
@@ -306,3 +306,81 @@ Proof.
   - intros i k. apply Glue_certs.trusted_for_in_loaded_documents.
 Qed.
 Print Assumptions C03_accepted_key_is_declared_in_loaded_metadata.
+
+(* ================================================================ certificate validity dates
+   Model/CertValidity.v: a certificate is (key, validity window); the window is an attribute that the
+   certificate selection carries along and never reads.  `Metadata holds a signing key for the issuer`
+   is a statement about the DECLARED list. *)
+
+(* the model with dates gives, on every input, the verdict of the model without them on the federation
+   with the dates erased: every theorem above holds for federations with expired / not yet valid
+   certificates (and the correspondence units that compare with Model/IssuerSel.v on erased federations
+   compare with this model) *)
+Theorem C03_validity_erased :
+  forall mp m issuer only_md embedded signer,
+    vcheck_signature mp m issuer only_md embedded signer =
+    check_signature mp (erase_md m) issuer only_md (map c_key embedded) signer.
+Proof. exact vcheck_erase. Qed.
+Print Assumptions C03_validity_erased.
+
+(* change the window of every certificate - metadata by f, KeyInfo by g - at will: same verdict, same fallback decision *)
+Theorem C03_validity_ignored :
+  forall f g mp m issuer only_md embedded signer,
+    vcheck_signature mp (redate_md f m) issuer only_md (map (redate_cert g) embedded) signer =
+    vcheck_signature mp m issuer only_md embedded signer /\
+    consults_embedded mp (redate_md f m) issuer only_md = consults_embedded mp m issuer only_md.
+Proof. intros. split; [apply vcheck_redate|apply consults_embedded_redate]. Qed.
+Print Assumptions C03_validity_ignored.
+
+(* the fallback decision depends only on the setting and on the declared list being empty *)
+Theorem C03_fallback_declared_list_only :
+  forall mp m issuer only_md,
+    consults_embedded mp m issuer only_md = true <-> only_md = false /\ declared_signing mp m issuer = [].
+Proof. exact consults_embedded_iff. Qed.
+Print Assumptions C03_fallback_declared_list_only.
+
+(* ANY certificate c - valid, expired, not yet valid - in a signing / use-less key descriptor of the issuer's entity:
+   KeyInfo is not consulted under either setting; the verdict is the one with the setting on and no KeyInfo *)
+Theorem C03_declared_certificate_blocks_fallback :
+  forall m i e r kd c only_md embedded signer,
+    vfind_entity m i = Some e -> In r e -> In kd r -> vuse_matches SIGNING kd = true -> In c (vkd_certs kd) ->
+    consults_embedded true m (Some i) only_md = false /\
+    vcheck_signature true m (Some i) only_md embedded signer = vcheck_signature true m (Some i) true [] signer.
+Proof. exact declared_blocks_fallback. Qed.
+Print Assumptions C03_declared_certificate_blocks_fallback.
+
+(* C03_only_issuer_keys with the dates visible: default setting, success => the signer's key is held by a certificate
+   (of whatever window) of a signing / use-less key descriptor of the ISSUER's entity *)
+Theorem C03_validity_only_issuer_keys :
+  forall mp m issuer embedded signer,
+    vcheck_signature mp m issuer true embedded signer = Ok tt ->
+    mp = true /\ exists i e r kd c, issuer = Some i /\ vfind_entity m i = Some e /\ In r e /\ In kd r /\
+      (vkd_use kd = Some SIGNING \/ vkd_use kd = None) /\ In c (vkd_certs kd) /\ c_key c = signer.
+Proof.
+  intros mp m issuer embedded signer H. destruct (vcheck_accepts_declared _ _ _ _ _ H) as (c & Hd & Hk).
+  unfold declared_signing in Hd. destruct mp; [|destruct Hd]. split; [reflexivity|].
+  destruct (vmd_certs m issuer SIGNING) as [l|] eqn:Mc; [|destruct Hd].
+  destruct (vmd_certs_spec _ _ _ _ Mc) as (i & e & Hi & F & S). apply S in Hd as (r & kd & Hr & Hkd & Hu & Hc).
+  exists i, e, r, kd, c. repeat split; auto. unfold vuse_matches in Hu. destruct (vkd_use kd) as [u|]; [left|now right].
+  apply str_eqb_eq in Hu. now subst.
+Qed.
+Print Assumptions C03_validity_only_issuer_keys.
+
+(* conversely: the key of a declared certificate is accepted under both settings, whatever the window of that certificate *)
+Theorem C03_declared_key_accepted_whatever_window :
+  forall mp m issuer only_md embedded c,
+    In c (declared_signing mp m issuer) -> vcheck_signature mp m issuer only_md embedded (c_key c) = Ok tt.
+Proof. exact vcheck_declared_accepted. Qed.
+Print Assumptions C03_declared_key_accepted_whatever_window.
+
+(* non-vacuity: idp1 declares key 1 in an EXPIRED certificate.  Key 9 signs and embeds its own valid certificate:
+   refused under both settings; key 1 accepted; without any key descriptor the setting-off fallback trusts key 9 *)
+Definition fed_expired : vmdstore :=
+  [(s2l "idp1", [[{| vkd_use := Some SIGNING; vkd_certs := [{| c_key := 1; c_valid := Expired |}] |}]])].
+Theorem C03_validity_witness :
+  vcheck_signature true fed_expired (Some (s2l "idp1")) false [{| c_key := 9; c_valid := Valid |}] 9 = Err (s2l "SignatureError") /\
+  vcheck_signature true fed_expired (Some (s2l "idp1")) true [{| c_key := 9; c_valid := Valid |}] 9 = Err (s2l "SignatureError") /\
+  vcheck_signature true fed_expired (Some (s2l "idp1")) false [{| c_key := 9; c_valid := Valid |}] 1 = Ok tt /\
+  vcheck_signature true [(s2l "idp1", [[]])] (Some (s2l "idp1")) false [{| c_key := 9; c_valid := Valid |}] 9 = Ok tt.
+Proof. vm_compute. repeat split. Qed.
+Print Assumptions C03_validity_witness.
